@@ -37,7 +37,8 @@ type concBehaviour struct {
 	Pre     []storeOp   `json:"pre"`
 	Threads [][]storeOp `json:"threads"`
 	Repeat  int         `json:"repeat"`
-	Burst   int         `json:"burst"` // > 0: that many goroutines each deliver once to the (not yet existing) mailbox Names[1] at the same moment
+	Burst   int         `json:"burst"`  // > 0: that many goroutines each deliver once to the (not yet existing) mailbox Names[1] at the same moment
+	Poison  bool        `json:"poison"` // file store: the index of mailbox Names[1] is damaged, the store is walked (which fails), then Names[0] (same lock bucket) is used
 }
 
 type concInput struct {
@@ -121,6 +122,47 @@ func runConcHistory(w *tr.Writer, b concBehaviour, rep int, seed int64, scratch 
 		}
 		snapInto(ev)
 		w.Emit(ev)
+	}
+	if b.Poison {
+		// an unreadable mailbox must not take its neighbours with it: after a walk of the store that ran into it, every
+		// operation on another mailbox (here one that shares its lock bucket) still returns
+		p1 := prep(storeOp{Op: "add", Mb: 1, Meta: 1, Size: 300})
+		_, _ = st.AddMessage(p1.d)
+		damaged := 0
+		_ = filepath.Walk(dir, func(p string, info os.FileInfo, err error) error {
+			if err == nil && !info.IsDir() && filepath.Base(p) == "index.gob" {
+				if raw, rerr := os.ReadFile(p); rerr == nil && len(raw) > 40 {
+					// the index that lists exactly one message is the one just created
+					if ms, _ := st.GetMessages(b.Names[1]); len(ms) == 1 && bytes.Contains(raw, []byte(ms[0].ID())) {
+						_ = os.WriteFile(p, raw[:len(raw)/2], 0o660)
+						damaged++
+					}
+				}
+			}
+			return nil
+		})
+		verr := st.VisitMailboxes(func([]storage.Message) bool { return true })
+		ev := tr.Ev{"a": "poison", "t": hid, "mb": b.Names[0], "damaged": damaged, "visit": errClass(verr) != "ok"}
+		within := func(f func() error) string {
+			ch := make(chan error, 1)
+			go func() { ch <- f() }()
+			select {
+			case err := <-ch:
+				return errClass(err)
+			case <-time.After(5 * time.Second):
+				return "stuck"
+			}
+		}
+		p0 := prep(storeOp{Op: "add", Mb: 0, Meta: 1, Size: 300})
+		ev["add"] = within(func() error { _, err := st.AddMessage(p0.d); return err })
+		ev["list"] = within(func() error { _, err := st.GetMessages(b.Names[0]); return err })
+		ev["purge"] = within(func() error { return st.PurgeMessages(b.Names[0]) })
+		ev["add2"] = within(func() error {
+			_, err := st.AddMessage(prep(storeOp{Op: "add", Mb: 2, Meta: 1, Size: 300}).d)
+			return err
+		})
+		w.Emit(ev)
+		return
 	}
 	if b.Burst > 0 {
 		// first touch: all goroutines deliver to a mailbox nobody has used yet; one event records every result
@@ -240,14 +282,21 @@ func runConcHistory(w *tr.Writer, b concBehaviour, rep int, seed int64, scratch 
 					record(inv, res, call)
 				case "visit":
 					// a visit is a series of reads, one per mailbox, each within [start of the visit, its callback]
+					visited := []string{}
 					verr := st.VisitMailboxes(func(ms []storage.Message) bool {
 						if len(ms) > 0 {
 							pm := tr.ProjectLites(ms)
 							res := atomic.AddInt64(&seq, 1)
 							record(inv, res, tr.Ev{"k": "list", "mb": ms[0].Mailbox(), "r": "ok", "msgs": pm, "via": "visit"})
+							visited = append(visited, ms[0].Mailbox())
 						}
 						return true
 					})
+					if verr == nil {
+						// the walk as a whole: which mailboxes it was shown
+						res := atomic.AddInt64(&seq, 1)
+						record(inv, res, tr.Ev{"k": "visitdone", "mb": p.name, "r": "ok", "visited": visited})
+					}
 					if verr != nil {
 						res := atomic.AddInt64(&seq, 1)
 						record(inv, res, tr.Ev{"k": "visit-error", "mb": p.name, "r": errClass(verr)})
